@@ -1,12 +1,13 @@
-import SqlProofs.DelimR.CfgInst
+import SqlProofs.DelimChild.Reindent.CfgInst
 /-!
-# SqlProofs.DelimR.Lift — from one level to the whole tree
+# SqlProofs.DelimChild.Reindent.Lift — from one level to the whole tree
 
 A pass first recurses into (some of) the group children and then runs its loop on the list; the invariant of the
 phase before implies that of the phase after (`Ph.le`), so children that are not visited are fine too.
 -/
 namespace Sql
-namespace DC
+namespace DCR
+open DC
 
 variable {u : Text → Text}
 
@@ -256,5 +257,5 @@ theorem typedLiteralPass_inv (hu : DelimU u) {ph : Ph} (hph : ph.needWhere = fal
       fuel c L1 L' h hk1 hi1
     exact ⟨hk2, hi2, fun P hP hn => hn2 P hP (hn1 P hP hn)⟩
 
-end DC
+end DCR
 end Sql
